@@ -150,7 +150,13 @@ func (y *yieldState) hook(site int) {
 	case 2:
 		time.Sleep(time.Duration(1+(w>>8)%50) * time.Microsecond)
 	case 3:
-		time.Sleep(time.Duration(1+(w>>8)%20) * time.Millisecond)
+		d := time.Duration(1+(w>>8)%20) * time.Millisecond
+		if (w>>20)%4 == 0 {
+			// a stalled thread (descheduled, paging, a long GC assist): long enough for timers of the
+			// code under test (forced closes, handshake and last-ack timeouts) to fire meanwhile
+			d = time.Duration(20+(w>>24)%2000) * time.Millisecond
+		}
+		time.Sleep(d)
 	}
 }
 
@@ -181,13 +187,28 @@ func (r *Run) ArmYields(prefixes []string, nSites, budget int, p float64) {
 	if len(cand) == 0 {
 		return
 	}
-	for i := 0; i < nSites; i++ {
-		id := cand[r.Intn("yield-arm", len(cand))]
-		y.armed[id] = 1
+	how := "random sites"
+	if r.Intn("yield-arm", 3) == 0 {
+		// swarm variant: every site of ONE function (windows between two neighbouring statements of a
+		// function, e.g. a check and the lock taken after it, need both of its sites perturbed)
+		fn := Sites[cand[r.Intn("yield-arm", len(cand))]].Func
+		nSites = 0
+		for _, id := range cand {
+			if Sites[id].Func == fn {
+				y.armed[id] = 1
+				nSites++
+			}
+		}
+		how = "all sites of " + fn
+	} else {
+		for i := 0; i < nSites; i++ {
+			id := cand[r.Intn("yield-arm", len(cand))]
+			y.armed[id] = 1
+		}
 	}
 	y.budget = budget
 	y.thresh = uint64(p * float64(uint64(1)<<53))
-	r.SetCfg("yield", fmt.Sprintf("sites=%d budget=%d p=%.2f", nSites, budget, p))
+	r.SetCfg("yield", fmt.Sprintf("%s (%d) budget=%d p=%.2f", how, nSites, budget, p))
 }
 
 // collectYields moves fired yields into the run's decision list and returns
